@@ -1,24 +1,174 @@
-"""C08 — blocks / zero_pad / Stream.blocks.  Tie: exhaustive small + random large."""
+"""C08 — blocks / zero_pad / Stream.blocks.
+
+Tie.  Besides the exhaustive (len x size x hop) grid on finished list inputs, the cases are
+HISTORIES around one generator, each compared with the Lean model and the Lean spec of that history:
+
+  trace     observing source that ENDS or FAILS (raises a custom exception) after j items, j = every
+            position: the blocks handed out before the failure must be exactly the complete blocks of
+            the j delivered items, block k must come out when exactly k*hop+size items were pulled
+            (no read-ahead), no padded block after a failure, the very exception object propagates
+            (Lean: blocksTrace; theorems blocks_prefix, reads_closed, trace_fail, trace_stop).
+  mut       the caller edits the yielded deque in place between two yields (item assignment, rotate,
+            reverse): documented ("changing the returned contents will keep the new changed value in
+            the next yielded container" when hop < size); nothing shows when hop >= size
+            (Lean: blocksMut / mutSpec; theorems blocks_mut_eq_spec, mut_next_block, ...).
+  live      live source whose items depend on what the caller did after each block (ControlStream
+            through Stream.blocks, a generator reading a cell): the blocks are those of the sequence
+            item i = value in force when nFull(i) blocks were out (Lean: blocksLive; blocks_live).
+  blocks    + routes: Stream subclasses overriding __iter__ (gain-on-iterate, the ChangeableStream idiom
+            of examples/keyboard.py followed by limit / append after j blocks), thub (two branches
+            consumed in lock-step), tuple / deque / generator inputs, int-like size / hop types.
+  zero_pad  observing / failing sources, int-like left / right, 0 and large pads.
+  conc      several generators alive at once (round robin / nested / in sequence), sharing the argument
+            objects: each must be the model of its own case taken alone; arguments unchanged.
+  big       size / hop around 63..65, 127..129, 1023..1025, 4095..4097 with short and long inputs.
+
+Items travel as TAGGED JSON (1, 1.0 and True are different items; `{"o": k}` = k-th source object,
+checked by identity) so that a change that copies or casts the items is seen.
+"""
+import collections
+import itertools as it
+import json
+import warnings
+from fractions import Fraction
+
 import common
 from common import err_kind
 
 ID = "C08"
-RULE = ("exhaustive (len x size x hop x route) grid plus random larger cases; a case is non-trivial "
+RULE = ("exhaustive (len x size x hop x route) grid on finished inputs, exhaustive (len x size x hop x ending) "
+        "grid of observing sources that end / fail at every position, small exhaustive grids of caller-edit and "
+        "live-source histories, random larger cases of every entry incl. Stream-subclass / thub / int-like-parameter "
+        "routes, interleaved generators, and sizes/hops around powers of two up to 4097; a case is non-trivial "
         "when the impl yields at least one block (or zero_pad has non-empty output); distinct = distinct JSON case")
-TRUSTED = ["hand-written Lean model ALV/Model/C08.lean of lazy_misc.blocks/zero_pad (modelled, not verified: deque(maxlen), generator protocol)"]
-ASSUMPTIONS = ["size >= 1 and hop >= 1 (the property's quantifier); size=None / hop=0 are outside it"]
+TRUSTED = [
+    "hand-written Lean model ALV/Model/C08.lean + C08Hist.lean of lazy_misc.blocks/zero_pad (modelled, not verified: "
+    "deque(maxlen), generator protocol: a source exception passes through the generator frame unchanged)",
+    "independence of a call from earlier / concurrent calls holds for the model by construction (pure functions of "
+    "the arguments); the `conc` cases check it on the real code",
+    "caller edits are modelled for length-preserving operations only (item assignment, rotate, reverse): the "
+    "docstring speaks of changing the returned CONTENTS; append/pop on the yielded deque are outside the property",
+    "Stream subclasses: `Stream.blocks(s)` is modelled as `blocks(iter(s))`; the sequence iter(s) yields for a "
+    "given history is computed by the harness from the no-read-ahead clause (block k after k*hop+size items)",
+]
+ASSUMPTIONS = [
+    "size >= 1 and hop >= 1 (the property's quantifier); size=None / hop=0 are outside it",
+    "size/hop of type int, bool or an int subclass are inside the quantifier; an int-valued float / Fraction hop is "
+    "outside (xrange(idx, size) refuses it when a padded block is due): the check then only demands that every "
+    "complete block is right and that the refusal is a TypeError",
+]
+
+PAD_POOL = [None, 0, "pad", -1, {"f": "0.0"}, {"o": -1}]
+EXC_POOL = ["DeviceError", "ValueError", "KeyError", "ZeroDivisionError"]
 
 
-def _items(rng, n, hetero):
-    if not hetero:
+class DeviceError(Exception):
+    pass
+
+
+class Obj(object):
+    """source object tracked by identity"""
+    __slots__ = ("k",)
+
+    def __init__(self, k):
+        self.k = k
+
+    def __repr__(self):
+        return "Obj(%d)" % self.k
+
+
+class Int(int):
+    """int subclass (int-like parameter)"""
+
+
+# ----------------------------------------------------------------------------
+# tagged items
+# ----------------------------------------------------------------------------
+def untag(j, reg=None):
+    if isinstance(j, dict):
+        if "b" in j:
+            return bool(j["b"])
+        if "f" in j:
+            return float(j["f"])
+        if "l" in j:
+            return [untag(e, reg) for e in j["l"]]
+        if "t" in j:
+            return tuple(untag(e, reg) for e in j["t"])
+        if "o" in j:
+            k = j["o"]
+            if reg is None:
+                return Obj(k)
+            if k not in reg:
+                reg[k] = Obj(k)
+            return reg[k]
+        raise ValueError("untag %r" % (j,))
+    return j
+
+
+def tag(x, reg=None):
+    if x is None or isinstance(x, str):
+        return x
+    if isinstance(x, bool):
+        return {"b": x}
+    if type(x) is int:
+        return x
+    if isinstance(x, float):
+        return {"f": repr(x)}
+    if type(x) is list:
+        return {"l": [tag(e, reg) for e in x]}
+    if type(x) is tuple:
+        return {"t": [tag(e, reg) for e in x]}
+    if isinstance(x, Obj):
+        if reg is not None and reg.get(x.k) is x:
+            return {"o": x.k}
+        return {"o": x.k, "copy": 1}
+    return {"?": type(x).__name__, "r": repr(x)[:60]}
+
+
+def tagl(xs, reg=None):
+    return [tag(x, reg) for x in xs]
+
+
+def _items(rng, n, flavour):
+    if flavour == "int":
         return list(range(100, 100 + n))
-    pool = [0, 1, -3, "a", "bb", None, True, [1, 2], 7]
+    if flavour == "ident":
+        return [{"o": i} for i in range(n)]
+    pool = [0, 1, -3, "a", "bb", None, {"b": True}, {"b": False}, {"l": [1, 2]}, 7, {"f": "1.0"}, {"f": "0.0"},
+            {"t": [1]}, {"f": "2.5"}]
     return [rng.choice(pool) for _ in range(n)]
+
+
+def nfull(size, hop, n):
+    return 0 if n < size else (n - size) // hop + 1
+
+
+def pulled(size, hop, j):
+    """items pulled when j blocks have been handed out"""
+    return 0 if j == 0 else (j - 1) * hop + size
+
+
+def case_xs(c):
+    return c["xs"] if "xs" in c else list(range(c["n"]))
+
+
+def case_len(c):
+    return len(c["xs"]) if "xs" in c else c["n"]
+
+
+# ----------------------------------------------------------------------------
+# generation
+# ----------------------------------------------------------------------------
+BIG = [(63, 64, 300), (64, 64, 64 * 5), (65, 64, 400), (64, 63, 64 + 63 * 4 + 1), (127, 128, 1000), (128, 1, 140),
+       (129, 128, 129 + 128 * 3 - 1), (1023, 1024, 5000), (1024, 1024, 4096), (1025, 3, 1040), (4095, 4096, 12290),
+       (4096, 4096, 8192), (4097, 4096, 12290), (4096, 4097, 3 * 4096 + 5), (4097, 1, 4105), (1, 4096, 20000),
+       (3, 4097, 20000), (4096, 5000, 30), (5000, 1, 17), (2048, 1000, 9000), (1000, 2048, 9000), (7, 1, 3000)]
 
 
 def generate(rng, tier, scale=1):
     cases = []
-    if tier == "quick":
+    quick = tier == "quick"
+    if quick:
         L, S, H = 14, 7, 9
         nrand = 300 * scale
     else:
@@ -38,110 +188,886 @@ def generate(rng, tier, scale=1):
                 for r in range(0, 4):
                     cases.append({"entry": "zero_pad", "left": l, "right": r, "zero": "z",
                                   "xs": list(range(n))})
+        # sources that end / fail at every position, observed
+        Lt, St, Ht = (10, 5, 7) if quick else (26, 9, 12)
+        for n in range(Lt + 1):
+            for size in range(1, St + 1):
+                for hop in range(1, Ht + 1):
+                    for ending in ("stop", "fail"):
+                        cases.append({"entry": "trace", "size": size, "hop": hop, "pad": "P",
+                                      "xs": list(range(n)), "ending": ending,
+                                      "route": ("func", "stream", "substream")[(n + size + hop) % 3],
+                                      "exc": EXC_POOL[(n + hop) % len(EXC_POOL)]})
+        # caller edits and live sources, small grid
+        Lm, Sm, Hm = (9, 4, 5) if quick else (18, 6, 8)
+        for n in range(Lm + 1):
+            for size in range(1, Sm + 1):
+                for hop in range(1, Hm + 1):
+                    cases.append({"entry": "mut", "size": size, "hop": hop, "pad": "P", "xs": list(range(n)),
+                                  "edits": _edits(rng, size, nfull(size, hop, n) + 1, dense=True),
+                                  "route": ("func", "stream")[(n + hop) % 2]})
+                    cases.append({"entry": "live", "size": size, "hop": hop, "pad": "P", "n": n,
+                                  "vals": ["v%d" % i for i in range(nfull(size, hop, n) + 2)],
+                                  "kind": ("control", "cell", "cellstream")[(n + size) % 3]})
+        for n in range(0, 6):
+            for l in range(0, 4):
+                for r in range(0, 4):
+                    for ending in ("stop", "fail"):
+                        cases.append({"entry": "zero_pad", "left": l, "right": r, "zero": {"f": "0.0"},
+                                      "xs": list(range(n)), "ending": ending, "observe": True,
+                                      "ptype": ("int", "intsub", "bool")[(l + r + n) % 3]})
+        big = BIG if not quick else [BIG[i] for i in range(len(BIG)) if i % 2 == rng.randrange(2) or BIG[i][0] > 4000]
+        for size, hop, n in big:
+            for dn in ((0,) if quick else (-1, 0, 1)):
+                cases.append({"entry": "trace", "size": size, "hop": hop, "pad": None, "n": max(0, n + dn),
+                              "ending": rng.choice(["stop", "fail"]), "route": rng.choice(["func", "stream"]),
+                              "exc": "DeviceError"})
+        for l, r, n in [(0, 0, 0), (5000, 0, 3), (0, 5000, 3), (4096, 4097, 1000)]:
+            cases.append({"entry": "zero_pad", "left": l, "right": r, "zero": 0, "n": n,
+                          "ending": rng.choice(["stop", "fail"]), "observe": True, "ptype": "int"})
     for _ in range(nrand):
         size = rng.randint(1, 30)
         hop = rng.choice([1, size, size + 1, rng.randint(1, 40), max(1, size - 1), 2 * size])
         n = rng.choice([0, size - 1, size, size + 1, rng.randint(0, 120), size + 3 * hop, size + 3 * hop - 1])
         n = max(0, n)
         cases.append({"entry": "blocks", "size": size, "hop": hop,
-                      "pad": rng.choice([None, 0, "pad", -1]),
-                      "xs": _items(rng, n, rng.random() < 0.5),
+                      "pad": rng.choice(PAD_POOL),
+                      "xs": _items(rng, n, rng.choice(["int", "hetero", "ident"])),
                       "route": rng.choice(["func", "stream", "iter"])})
-    return cases
+    for _ in range(nrand):
+        cases.append(_random_case(rng))
+    return [c for c in cases if valid(c)]
+
+
+def _shape(rng, smax=12):
+    size = rng.randint(1, smax)
+    hop = rng.choice([1, size, size + 1, rng.randint(1, smax + 6), max(1, size - 1), 2 * size])
+    n = max(0, rng.choice([0, size - 1, size, size + 1, rng.randint(0, 60), size + 3 * hop, size + 3 * hop - 1,
+                           size + 2 * hop + 1]))
+    return size, hop, n
+
+
+def _edits(rng, size, nblocks, dense=False):
+    eds = []
+    for _ in range(nblocks):
+        ops = []
+        for _ in range(rng.choice([1, 1, 2]) if dense else rng.choice([0, 1, 1, 2, 3])):
+            kind = rng.choice(["set", "set", "set", "rot", "rev"])
+            if kind == "set":
+                ops.append(["set", rng.randrange(size), rng.choice(["X", "Y", -7, None, {"f": "1.5"}])])
+            elif kind == "rot":
+                ops.append(["rot", rng.randint(-size - 1, size + 1)])
+            else:
+                ops.append(["rev"])
+        eds.append(ops)
+    return eds
+
+
+def _random_case(rng):
+    size, hop, n = _shape(rng)
+    pad = rng.choice(PAD_POOL)
+    kind = rng.choice(["trace", "trace", "mut", "live", "route", "route", "route", "ptype", "zp", "conc"])
+    flavour = rng.choice(["int", "hetero", "ident"])
+    if kind == "trace":
+        return {"entry": "trace", "size": size, "hop": hop, "pad": pad, "xs": _items(rng, n, flavour),
+                "ending": rng.choice(["stop", "fail", "fail"]),
+                "route": rng.choice(["func", "stream", "substream", "chgstream"]),
+                "exc": rng.choice(EXC_POOL)}
+    if kind == "mut":
+        return {"entry": "mut", "size": size, "hop": hop, "pad": pad, "xs": _items(rng, n, flavour),
+                "edits": _edits(rng, size, nfull(size, hop, n) + 1), "route": rng.choice(["func", "stream"])}
+    if kind == "live":
+        nb = nfull(size, hop, n) + 2
+        return {"entry": "live", "size": size, "hop": hop, "pad": rng.choice([None, 0, "pad"]), "n": n,
+                "vals": [rng.choice(["a", "b", 3, -1, None]) if rng.random() < .3 else "v%d" % i
+                         for i in range(rng.randint(1, nb))],
+                "kind": rng.choice(["control", "cell", "cellstream"])}
+    if kind == "route":
+        route = rng.choice(["gain", "chg_limit", "chg_append", "chg_limit", "chg_append", "thub", "tuple", "deque",
+                            "genfunc", "substream", "chgstream", "thub1", "positional"])
+        c = {"entry": "blocks", "size": size, "hop": hop, "pad": pad, "route": route}
+        if route == "gain":
+            c["xs"] = [rng.randint(-9, 9) for _ in range(n)]
+            c["gain"] = rng.choice([10, -1, 3, 0])
+            c["pad"] = rng.choice([None, 0, "pad"])
+        else:
+            c["xs"] = _items(rng, n, flavour)
+        if route in ("chg_limit", "chg_append"):
+            c["take"] = rng.randint(0, nfull(size, hop, n))
+            if route == "chg_append":
+                lo = pulled(size, hop, c["take"])
+                c["first"] = rng.choice([lo, lo, rng.randint(lo, max(lo, n))])
+        return c
+    if kind == "ptype":
+        pt = rng.choice(["intsub", "intsub", "bool", "hopfloat", "hopfrac", "sizefloat"])
+        if pt == "bool":
+            size = hop = 1
+        return {"entry": "blocks", "size": size, "hop": hop, "pad": pad, "xs": _items(rng, n, flavour),
+                "route": rng.choice(["func", "stream"]), "ptype": pt}
+    if kind == "zp":
+        return {"entry": "zero_pad", "left": rng.choice([0, 0, 1, 2, rng.randint(0, 40)]),
+                "right": rng.choice([0, 0, 1, 2, rng.randint(0, 40)]),
+                "zero": rng.choice(PAD_POOL), "xs": _items(rng, rng.randint(0, 12), flavour),
+                "ending": rng.choice(["stop", "fail"]), "observe": True,
+                "ptype": rng.choice(["int", "intsub", "bool", "float"]),
+                "route": rng.choice(["iter", "list", "stream"])}
+    # conc
+    subs = []
+    shared = _items(rng, n, flavour)
+    for _ in range(rng.randint(2, 4)):
+        s2, h2, n2 = _shape(rng, 6)
+        if rng.random() < .5:
+            s2, h2 = size, hop          # equal parameters: a cache keyed by (size, hop) would collide
+        share = rng.random() < .6
+        subs.append({"entry": "blocks", "size": s2, "hop": h2, "pad": pad,
+                     "xs": shared if share else _items(rng, n2, flavour), "share": share,
+                     "route": rng.choice(["func", "stream", "iter"]),
+                     "ptype": rng.choice(["int", "int", "intsub"])})
+    return {"entry": "conc", "subs": subs, "order": rng.choice(["rr", "rr", "seq", "nest"])}
+
+
+def valid(c):
+    e = c["entry"]
+    if e == "conc":
+        return len(c["subs"]) >= 1 and all(valid(s) for s in c["subs"])
+    if e == "zero_pad":
+        if c.get("ptype") == "bool" and (c["left"] > 1 or c["right"] > 1):
+            return False
+        return c["left"] >= 0 and c["right"] >= 0
+    if c["size"] < 1 or c["hop"] < 1:
+        return False
+    n = case_len(c)
+    if e == "blocks":
+        r = c.get("route", "func")
+        if r == "hopnone" and c["hop"] != c["size"]:
+            return False
+        if c.get("ptype") == "bool" and (c["size"] != 1 or c["hop"] != 1):
+            return False
+        if r in ("chg_limit", "chg_append"):
+            j = c.get("take", 0)
+            if j < 0 or j > nfull(c["size"], c["hop"], n):
+                return False
+            if r == "chg_append" and not (pulled(c["size"], c["hop"], j) <= c.get("first", n) <= n):
+                return False
+        if r == "gain" and not all(type(x) is int for x in c["xs"]):
+            return False
+    if e == "mut":
+        for ops in c["edits"]:
+            for op in ops:
+                if op[0] == "set" and not (0 <= op[1] < c["size"]):
+                    return False
+    if e == "live" and not c["vals"]:
+        return False
+    return True
+
+
+# ----------------------------------------------------------------------------
+# the real code
+# ----------------------------------------------------------------------------
+def _classes():
+    from audiolazy import Stream
+
+    class SubStream(Stream):
+        """Stream subclass that does not touch __iter__"""
+
+    class ChangeableStream(Stream):
+        """examples/keyboard.py idiom: the iterator keeps taking samples from the Stream
+        instead of being the iterator of the internal data itself"""
+        def __iter__(self):
+            while True:
+                try:
+                    el = next(self._data)
+                except StopIteration:
+                    return
+                yield el
+
+    class GainStream(Stream):
+        def __init__(self, data, gain):
+            super(GainStream, self).__init__(data)
+            self.gain = gain
+
+        def __iter__(self):
+            return (el * self.gain for el in self._data)
+
+    return SubStream, ChangeableStream, GainStream
+
+
+def _param(v, pt, which):
+    if pt == "intsub":
+        return Int(v)
+    if pt == "bool":
+        return bool(v)
+    if pt == "hopfloat" and which == "hop":
+        return float(v)
+    if pt == "hopfrac" and which == "hop":
+        return Fraction(v)
+    if pt == "sizefloat" and which == "size":
+        return float(v)
+    if pt == "float":
+        return float(v)
+    return v
+
+
+def _make_exc(name):
+    return {"DeviceError": DeviceError, "ValueError": ValueError, "KeyError": KeyError,
+            "ZeroDivisionError": ZeroDivisionError}[name]("source failed")
+
+
+def _source(items, ending, log, exc):
+    for i, x in enumerate(items):
+        log.append(i)
+        yield x
+    if ending == "fail":
+        raise exc
+
+
+def _run_gen(gen, reg, out, bound=None):
+    """collect snapshots of the blocks; returns error kind or None"""
+    try:
+        for b in (gen if bound is None else it.islice(gen, bound)):
+            out.append(tagl(b, reg))
+    except Exception as e:
+        return err_kind(e)
+    return None
+
+
+def _impl_blocks(c):
+    from audiolazy import blocks, Stream, thub
+    SubStream, ChangeableStream, GainStream = _classes()
+    reg = {}
+    xs = [untag(x, reg) for x in case_xs(c)]
+    pristine = list(xs)
+    pad = untag(c["pad"], reg)
+    pt = c.get("ptype", "int")
+    size, hop = _param(c["size"], pt, "size"), _param(c["hop"], pt, "hop")
+    kw = dict(size=size, hop=hop, padval=pad)
+    route = c.get("route", "func")
+    out = []
+    obs = {"blocks": out}
+    n = len(xs)
+    bound = n + 4
+    if route == "func":
+        err = _run_gen(blocks(xs, **kw), reg, out)
+    elif route == "positional":
+        err = _run_gen(blocks(xs, size, hop, pad), reg, out)
+    elif route == "stream":
+        err = _run_gen(Stream(xs).blocks(**kw), reg, out)
+    elif route == "substream":
+        err = _run_gen(SubStream(xs).blocks(**kw), reg, out)
+    elif route == "chgstream":
+        err = _run_gen(ChangeableStream(xs).blocks(**kw), reg, out)
+    elif route == "hopnone":
+        err = _run_gen(blocks(xs, size=size, padval=pad), reg, out)
+    elif route == "iter":
+        err = _run_gen(blocks(iter(xs), size, hop, pad), reg, out)
+    elif route == "tuple":
+        err = _run_gen(blocks(tuple(xs), **kw), reg, out)
+    elif route == "deque":
+        err = _run_gen(blocks(collections.deque(xs), **kw), reg, out)
+    elif route == "genfunc":
+        err = _run_gen(blocks((x for x in xs), **kw), reg, out)
+    elif route == "gain":
+        err = _run_gen(GainStream(xs, c["gain"]).blocks(**kw), reg, out)
+    elif route in ("thub", "thub1"):
+        with warnings.catch_warnings():
+            warnings.simplefilter("ignore")
+            hub = thub(xs, 2 if route == "thub" else 1)
+            a = hub.blocks(**kw)
+            b = hub.blocks(**kw) if route == "thub" else iter(())
+            out2 = []
+            err = None
+            try:
+                for ba, bb in it.zip_longest(a, b):      # lock-step consumption of both branches
+                    if ba is not None:
+                        out.append(tagl(ba, reg))
+                    if bb is not None:
+                        out2.append(tagl(bb, reg))
+            except Exception as e:
+                err = err_kind(e)
+            if route == "thub":
+                obs["blocks2"] = out2
+    elif route == "chg_limit":
+        j = c["take"]
+        endless = it.chain(xs, (("extra", i) for i in it.count()))
+        cs = ChangeableStream(endless)
+        blks = iter(cs.blocks(**kw))
+        err = _run_gen(blks, reg, out, j)
+        if err is None and len(out) == j:
+            cs.limit(n - pulled(c["size"], c["hop"], j))     # the input ends after that many further items
+            err = _run_gen(blks, reg, out, bound)
+    elif route == "chg_append":
+        j, m = c["take"], c.get("first", n)
+        cs = ChangeableStream(xs[:m])
+        blks = iter(cs.blocks(**kw))
+        err = _run_gen(blks, reg, out, j)
+        if err is None and len(out) == j:
+            cs.append(xs[m:])
+            err = _run_gen(blks, reg, out, bound)
+    else:
+        raise ValueError("route " + route)
+    if err is not None:
+        obs["err"] = err
+    obs["arg_ok"] = len(xs) == len(pristine) and all(a is b for a, b in zip(xs, pristine))
+    return obs
+
+
+def _impl_trace(c):
+    from audiolazy import blocks, Stream
+    SubStream, ChangeableStream, _G = _classes()
+    reg = {}
+    big = "xs" not in c
+    xs = range(c["n"]) if big else [untag(x, reg) for x in c["xs"]]
+    pad = untag(c["pad"], reg)
+    exc = _make_exc(c.get("exc", "DeviceError"))
+    log = []
+    src = _source(xs, c["ending"], log, exc)
+    kw = dict(size=c["size"], hop=c["hop"], padval=pad)
+    route = c.get("route", "func")
+    if route == "func":
+        gen = blocks(src, **kw)
+    elif route == "stream":
+        gen = Stream(src).blocks(**kw)
+    elif route == "substream":
+        gen = SubStream(src).blocks(**kw)
+    else:
+        gen = ChangeableStream(src).blocks(**kw)
+    events = []
+    obs = {"events": events, "raised": False}
+    try:
+        for b in gen:
+            events.append([len(log), list(b) if big else tagl(b, reg)])
+    except Exception as e:
+        obs["raised"] = True
+        obs["exc"] = "same" if e is exc else "other:" + err_kind(e)
+    return obs
+
+
+def _apply_edit(blk, op, reg):
+    if op[0] == "set":
+        blk[op[1]] = untag(op[2], reg)
+    elif op[0] == "rot":
+        blk.rotate(op[1])
+    else:
+        blk.reverse()
+
+
+def _impl_mut(c):
+    from audiolazy import blocks, Stream
+    reg = {}
+    xs = [untag(x, reg) for x in c["xs"]]
+    pad = untag(c["pad"], reg)
+    kw = dict(size=c["size"], hop=c["hop"], padval=pad)
+    gen = blocks(xs, **kw) if c.get("route", "func") == "func" else Stream(xs).blocks(**kw)
+    out = []
+    obs = {"blocks": out}
+    try:
+        for k, blk in enumerate(gen):
+            out.append(tagl(blk, reg))
+            if k < len(c["edits"]):
+                for op in c["edits"][k]:
+                    _apply_edit(blk, op, reg)
+    except Exception as e:
+        obs["err"] = err_kind(e)
+    return obs
+
+
+def _impl_live(c):
+    from audiolazy import blocks, Stream, ControlStream
+    vals = c["vals"]
+    n = c["n"]
+    kw = dict(size=c["size"], hop=c["hop"], padval=c["pad"])
+    kind = c.get("kind", "cell")
+    if kind == "control":
+        cs = ControlStream(vals[0])
+        cs.limit(n)
+        gen = cs.blocks(**kw)
+
+        def setv(v):
+            cs.value = v
+        enc = lambda b: list(b)
+    else:
+        cell = [vals[0]]
+
+        def src():
+            for i in range(n):
+                yield (i, cell[0])
+        gen = blocks(src(), **kw) if kind == "cell" else Stream(src()).blocks(**kw)
+
+        def setv(v):
+            cell[0] = v
+        enc = lambda b: [list(x) if isinstance(x, tuple) else x for x in b]
+    out = []
+    obs = {"blocks": out}
+    try:
+        for k, blk in enumerate(it.islice(gen, n + 4)):
+            out.append(enc(blk))
+            setv(vals[min(k + 1, len(vals) - 1)])
+    except Exception as e:
+        obs["err"] = err_kind(e)
+    return obs
+
+
+def _impl_zero_pad(c):
+    from audiolazy import zero_pad, Stream
+    reg = {}
+    big = "xs" not in c
+    xs = list(range(c["n"])) if big else [untag(x, reg) for x in c["xs"]]
+    zero = untag(c["zero"], reg)
+    pt = c.get("ptype", "int")
+    left, right = _param(c["left"], pt, "left"), _param(c["right"], pt, "right")
+    if not c.get("observe"):
+        return {"out": tagl(zero_pad(iter(xs), left=left, right=right, zero=zero), reg)}
+    exc = DeviceError("source failed")
+    log = []
+    route = c.get("route", "iter")
+    src = _source(xs, c.get("ending", "stop"), log, exc)
+    if route == "stream":
+        src = Stream(src)
+    elif route == "list" and c.get("ending", "stop") == "stop":
+        src = xs
+        log = None
+    out, reads = [], []
+    obs = {"out": out, "reads": reads, "raised": False}
+    try:
+        for x in zero_pad(src, left=left, right=right, zero=zero):
+            out.append(tag(x, reg))
+            reads.append(len(log) if log is not None else -1)
+    except Exception as e:
+        if e is exc:
+            obs["raised"] = True
+        else:
+            obs["err"] = err_kind(e)
+    if log is None:
+        obs["reads"] = None
+    return obs
+
+
+def _impl_conc(c):
+    from audiolazy import blocks, Stream
+    reg = {}
+    shared_xs = None
+    pads = {}
+    gens, outs, args = [], [], []
+    for s in c["subs"]:
+        if s.get("share"):
+            if shared_xs is None:
+                shared_xs = [untag(x, reg) for x in s["xs"]]
+            xs = shared_xs
+        else:
+            xs = [untag(x, reg) for x in s["xs"]]
+        pk = json.dumps(s["pad"])
+        if pk not in pads:
+            pads[pk] = untag(s["pad"], reg)
+        pt = s.get("ptype", "int")
+        kw = dict(size=_param(s["size"], pt, "size"), hop=_param(s["hop"], pt, "hop"), padval=pads[pk])
+        args.append((xs, list(xs)))
+        r = s.get("route", "func")
+        mk = {"func": lambda xs=xs, kw=kw: blocks(xs, **kw),
+              "stream": lambda xs=xs, kw=kw: iter(Stream(xs).blocks(**kw)),
+              "iter": lambda xs=xs, kw=kw: blocks(iter(xs), **kw)}[r]
+        gens.append(mk)
+        outs.append([])
+    order = c.get("order", "rr")
+    err = None
+    try:
+        if order == "seq":
+            for mk, out in zip(gens, outs):
+                for b in mk():
+                    out.append(tagl(b, reg))
+        elif order == "rr":
+            live = [(mk(), out) for mk, out in zip(gens, outs)]
+            while live:
+                nxt = []
+                for g, out in live:
+                    try:
+                        out.append(tagl(next(g), reg))
+                        nxt.append((g, out))
+                    except StopIteration:
+                        pass
+                live = nxt
+        else:   # nest: between two blocks of the first generator the others run completely (fresh each time)
+            first = True
+            for b in gens[0]():
+                outs[0].append(tagl(b, reg))
+                for mk, out in zip(gens[1:], outs[1:]):
+                    got = [tagl(x, reg) for x in mk()]
+                    if first:
+                        out.extend(got)
+                    elif got != out:
+                        out.append({"changed-on-rerun": got})
+                first = False
+            if first:
+                for mk, out in zip(gens[1:], outs[1:]):
+                    out.extend(tagl(x, reg) for x in mk())
+    except Exception as e:
+        err = err_kind(e)
+    obs = {"subs": [{"blocks": o} for o in outs],
+           "arg_ok": all(len(a) == len(p) and all(x is y for x, y in zip(a, p)) for a, p in args)}
+    if err:
+        obs["err"] = err
+    return obs
 
 
 def impl(c):
-    from audiolazy import blocks, zero_pad, Stream
+    e = c["entry"]
     try:
-        if c["entry"] == "blocks":
-            xs = c["xs"]
-            route = c.get("route", "func")
-            if route == "stream":
-                gen = Stream(xs).blocks(size=c["size"], hop=c["hop"], padval=c["pad"])
-            elif route == "hopnone":
-                gen = blocks(xs, size=c["size"], padval=c["pad"])
-            elif route == "iter":
-                gen = blocks(iter(xs), c["size"], c["hop"], c["pad"])
-            else:
-                gen = blocks(xs, size=c["size"], hop=c["hop"], padval=c["pad"])
-            return {"blocks": [list(b) for b in gen]}   # snapshot at yield time
-        else:
-            return {"out": list(zero_pad(iter(c["xs"]), left=c["left"], right=c["right"], zero=c["zero"]))}
-    except Exception as e:
-        return {"err": err_kind(e)}
+        if e == "blocks":
+            return _impl_blocks(c)
+        if e == "trace":
+            return _impl_trace(c)
+        if e == "mut":
+            return _impl_mut(c)
+        if e == "live":
+            return _impl_live(c)
+        if e == "conc":
+            return _impl_conc(c)
+        return _impl_zero_pad(c)
+    except Exception as ex:
+        return {"err": err_kind(ex)}
+
+
+# ----------------------------------------------------------------------------
+# Lean side
+# ----------------------------------------------------------------------------
+def _req1(c):
+    r = {k: c[k] for k in ("entry", "size", "hop", "pad", "xs", "n", "ending", "edits", "vals",
+                           "left", "right", "zero") if k in c}
+    if c["entry"] == "blocks" and c.get("route") == "gain":
+        r["xs"] = [x * c["gain"] for x in c["xs"]]
+    if c["entry"] == "live":
+        r["pair"] = c.get("kind", "cell") != "control"
+    return r
 
 
 def request(c):
-    r = dict(c)
-    r.pop("route", None)
-    return r
+    if c["entry"] == "conc":
+        return {"entry": "conc", "subs": [_req1(s) for s in c["subs"]]}
+    return _req1(c)
+
+
+def _cmp_blocks(c, io, drv, out, where=""):
+    pt = c.get("ptype", "int")
+    got = io.get("blocks")
+    if "err" in io:
+        nf = len(drv["reads"])
+        if pt in ("hopfloat", "hopfrac") and io["err"] == "TypeError" and got == drv["closed"][:nf] \
+                and len(drv["closed"]) == nf + 1:
+            return   # int-valued non-int hop refused when the padded block is due: outside the quantifier
+        if pt == "sizefloat" and io["err"] == "TypeError" and not got:
+            return   # deque(maxlen=float) refused
+        out.append(("model", where + "impl raised " + io["err"]))
+        out.append(("spec", where + "impl raised %s after blocks %r" % (io["err"], got)))
+        return
+    if got != drv["model"]:
+        out.append(("model", where + "blocks differ from model: impl=%r model=%r" % (got, drv["model"])))
+    if got != drv["closed"] or got != drv["spec"]:
+        out.append(("spec", where + "blocks differ from spec: impl=%r spec=%r" % (got, drv["closed"])))
+    if "blocks2" in io and io["blocks2"] != drv["closed"]:
+        out.append(("spec", where + "second thub branch differs from spec: impl=%r spec=%r" % (io["blocks2"], drv["closed"])))
+    if io.get("arg_ok") is False:
+        out.append(("spec", where + "the input sequence object was changed by the call"))
 
 
 def compare(c, io, drv):
     out = []
-    if "err" in io:
-        return [("model", "impl raised " + io["err"]), ("spec", "impl raised " + io["err"])]
-    if c["entry"] == "blocks":
+    e = c["entry"]
+    if e == "blocks":
+        _cmp_blocks(c, io, drv, out)
+    elif e == "conc":
+        if "err" in io and "subs" not in io:
+            return [("model", "impl raised " + io["err"]), ("spec", "impl raised " + io["err"])]
+        if "err" in io:
+            out.append(("spec", "interleaved generators: impl raised " + io["err"]))
+        for i, (s, o, d) in enumerate(zip(c["subs"], io["subs"], drv["subs"])):
+            _cmp_blocks(s, o, d, out, "generator %d of %d (%s): " % (i, len(c["subs"]), c.get("order")))
+        if io.get("arg_ok") is False:
+            out.append(("spec", "a shared input sequence object was changed"))
+    elif e == "trace":
+        if "err" in io:
+            return [("model", "impl raised " + io["err"]), ("spec", "impl raised " + io["err"])]
+        if io["events"] != drv["model"] or io["raised"] != drv["raised"]:
+            out.append(("model", "trace differs from model: impl=%s model=%s" % (_ev(io["events"], io["raised"]), _ev(drv["model"], drv["raised"]))))
+        if io["events"] != drv["spec"] or io["raised"] != drv["spec_raised"]:
+            out.append(("spec", "(items pulled, block) events of a source that %ss after %d items differ: impl=%s spec=%s"
+                        % (c["ending"], case_len(c), _ev(io["events"], io["raised"]), _ev(drv["spec"], drv["spec_raised"]))))
+        elif io["raised"] and io.get("exc") != "same":
+            out.append(("spec", "the source's exception did not come out unchanged: " + str(io.get("exc"))))
+    elif e in ("mut", "live"):
+        if "err" in io:
+            return [("model", "impl raised " + io["err"]), ("spec", "impl raised %s after %r" % (io["err"], io.get("blocks")))]
         if io["blocks"] != drv["model"]:
-            out.append(("model", "blocks differ from model: impl=%r model=%r" % (io["blocks"], drv["model"])))
-        if io["blocks"] != drv["closed"] or io["blocks"] != drv["spec"]:
-            out.append(("spec", "blocks differ from spec: impl=%r spec=%r" % (io["blocks"], drv["closed"])))
+            out.append(("model", "%s: blocks differ from model: impl=%r model=%r" % (e, io["blocks"], drv["model"])))
+        if io["blocks"] != drv["spec"]:
+            out.append(("spec", "%s: blocks differ from spec: impl=%r spec=%r" % (e, io["blocks"], drv["spec"])))
     else:
-        if io["out"] != drv["model"]:
-            out.append(("model", "zero_pad differs from model"))
-        if io["out"] != drv["spec"]:
-            out.append(("spec", "zero_pad differs from spec"))
+        if "err" in io:
+            if c.get("ptype") == "float" and io["err"] == "TypeError" and not io.get("out"):
+                return []    # xrange(float) refused: outside the quantifier
+            return [("model", "impl raised " + io["err"]), ("spec", "impl raised " + io["err"])]
+        if not c.get("observe"):
+            if io["out"] != drv["model"]:
+                out.append(("model", "zero_pad differs from model"))
+            if io["out"] != drv["spec"]:
+                out.append(("spec", "zero_pad differs from spec"))
+        else:
+            rd = io["reads"]
+            if io["out"] != drv["trace"] or io["raised"] != drv["raised"] or (rd is not None and rd != drv["trace_reads"]):
+                out.append(("model", "zero_pad trace differs from model: impl=%r reads=%r raised=%r" % (io["out"], rd, io["raised"])))
+            if io["out"] != drv["spec_trace"] or (rd is not None and rd != drv["spec_reads"]) or \
+                    io["raised"] != (c.get("ending", "stop") == "fail"):
+                out.append(("spec", "zero_pad over a source that %ss after %d items: impl=%r reads=%r raised=%r, spec=%r reads=%r"
+                            % (c.get("ending", "stop"), case_len(c), io["out"], rd, io["raised"], drv["spec_trace"], drv["spec_reads"])))
+            if c.get("ending", "stop") == "stop" and drv["spec_trace"] != drv["spec"]:
+                out.append(("model", "driver: trace of a finished source is not zero_pad"))
     return out
 
 
+def _ev(events, raised):
+    s = json.dumps(events)
+    if len(s) > 220:
+        s = s[:100] + " ... " + s[-100:]
+    return s + (" then the exception" if raised else " then the end")
+
+
 def nontrivial(c, io):
-    return bool(io.get("blocks") or io.get("out"))
+    if c["entry"] == "conc":
+        return any(o.get("blocks") for o in io.get("subs", []))
+    return bool(io.get("blocks") or io.get("out") or io.get("events"))
+
+
+def _bucket(n):
+    for b in (0, 1, 4, 16, 64, 256, 1024, 4096):
+        if n <= b:
+            return "<=%d" % b
+    return ">4096"
 
 
 def tally(eng, c, io):
-    if c["entry"] == "blocks":
-        rel = "hop<size" if c["hop"] < c["size"] else ("hop=size" if c["hop"] == c["size"] else "hop>size")
-        eng.count("hop_vs_size", rel)
-        eng.count("route", c.get("route", "func"))
-        nb = len(io.get("blocks", []))
-        eng.count("n_blocks", min(nb, 10))
-        if nb:
-            eng.count("last_block_padded", c["pad"] in io["blocks"][-1] and len(c["xs"]) > 0 and
-                      (len(c["xs"]) < c["size"] or (len(c["xs"]) - c["size"]) % c["hop"] != 0))
-        eng.count("len", min(len(c["xs"]) // 10 * 10, 100))
-    else:
-        eng.count("entry", "zero_pad")
+    e = c["entry"]
+    eng.count("entry", e)
     if "err" in io:
         eng.count("impl_error", io["err"])
+    if e == "conc":
+        eng.count("conc_order", c.get("order"))
+        eng.count("conc_generators", len(c["subs"]))
+        eng.count("conc_shared_xs", sum(1 for s in c["subs"] if s.get("share")))
+        eng.count("conc_equal_params", len({(s["size"], s["hop"]) for s in c["subs"]}) < len(c["subs"]))
+        return
+    if e == "zero_pad":
+        eng.count("zp_ending", c.get("ending", "stop") if c.get("observe") else "unobserved")
+        eng.count("zp_ptype", c.get("ptype", "int"))
+        eng.count("zp_left", _bucket(c["left"]))
+        eng.count("zp_right", _bucket(c["right"]))
+        return
+    size, hop, n = c["size"], c["hop"], case_len(c)
+    rel = "hop<size" if hop < size else ("hop=size" if hop == size else "hop>size")
+    eng.count("hop_vs_size", rel)
+    eng.count(e + "_hop_vs_size", rel)
+    eng.count("size", _bucket(size))
+    eng.count("hop", _bucket(hop))
+    eng.count("len", _bucket(n))
+    nf = nfull(size, hop, n)
+    if e == "blocks":
+        eng.count("route", c.get("route", "func"))
+        eng.count("ptype", c.get("ptype", "int"))
+        nb = len(io.get("blocks", []))
+        eng.count("n_blocks", min(nb, 10))
+        eng.count("last_block_padded", nb > nf)
+        if c.get("route") in ("chg_limit", "chg_append"):
+            eng.count("hist_blocks_before_change", min(c["take"], 5))
+        if c["xs"] and isinstance(c["xs"][0], dict) and "o" in c["xs"][0]:
+            eng.count("items", "identity-tracked")
+    elif e == "trace":
+        eng.count("trace_ending", c["ending"])
+        eng.count("trace_route", c.get("route", "func"))
+        # where the source ends relative to the block boundaries
+        at = "short" if n < size else ("right-after-a-block" if (n - size) % hop == 0 else "inside-a-block")
+        eng.count("trace_%s_position" % c["ending"], at)
+        eng.count("trace_n_events", min(len(io.get("events", [])), 10))
+    elif e == "mut":
+        eng.count("mut_route", c.get("route", "func"))
+        ne = sum(len(ops) for ops in c["edits"][:nf])
+        eng.count("mut_effective_edit_ops", min(ne, 6))
+        for ops in c["edits"][:nf]:
+            for op in ops:
+                eng.count("mut_op", op[0])
+    elif e == "live":
+        eng.count("live_kind", c.get("kind", "cell"))
+        eng.count("live_phases_seen", min(min(nf, len(c["vals"]) - 1), 6))
+
+
+# ----------------------------------------------------------------------------
+# shrinking / search / signatures
+# ----------------------------------------------------------------------------
+def _shrink1(c):
+    e = c["entry"]
+    if e == "zero_pad":
+        if "xs" in c and c["xs"]:
+            yield dict(c, xs=c["xs"][:-1])
+        if "n" in c and c["n"]:
+            yield dict(c, n=c["n"] // 2)
+            yield dict(c, n=c["n"] - 1)
+        for k in ("left", "right"):
+            if c[k]:
+                yield dict(c, **{k: c[k] // 2})
+                yield dict(c, **{k: c[k] - 1})
+        if c.get("ptype", "int") != "int":
+            yield dict(c, ptype="int")
+        if c.get("route", "iter") != "iter":
+            yield dict(c, route="iter")
+        return
+    n = case_len(c)
+    if "xs" in c:
+        xs = c["xs"]
+        if xs:
+            yield dict(c, xs=xs[:-1])
+            if c.get("route") != "gain":
+                plain = list(range(len(xs)))
+                if xs != plain:
+                    yield dict(c, xs=plain)
+        if e == "blocks" and c.get("route") == "chg_append" and c.get("first", n) > 0:
+            yield dict(c, first=c["first"] - 1)
+            if xs:
+                yield dict(c, xs=xs[:-1], first=min(c["first"], len(xs) - 1))
+    elif n:
+        if e != "live":
+            yield dict(c, n=n // 2)
+        yield dict(c, n=n - 1)
+        if e == "trace" and n <= 40:
+            d = dict(c, xs=list(range(n)))
+            d.pop("n")
+            yield d
+    if c["size"] > 1:
+        d = dict(c, size=c["size"] - 1)
+        if e == "mut":
+            d["edits"] = [[op for op in ops if op[0] != "set" or op[1] < d["size"]] for ops in c["edits"]]
+        yield d
+        if c["size"] > 8:
+            yield dict(c, size=c["size"] // 2, **({"edits": []} if e == "mut" else {}))
+    if c["hop"] > 1:
+        yield dict(c, hop=c["hop"] - 1)
+        if c["hop"] > 8:
+            yield dict(c, hop=c["hop"] // 2)
+    if c.get("pad") not in (None, "P"):
+        yield dict(c, pad=None)
+    if e == "blocks":
+        r = c.get("route", "func")
+        if r in ("chg_limit", "chg_append") and c["take"] > 0:
+            yield dict(c, take=c["take"] - 1)
+        if r not in ("func", "gain", "chg_limit", "chg_append", "thub"):
+            yield dict(c, route="func")
+        elif r == "thub":
+            yield dict(c, route="thub1")
+        elif r != "func":
+            d = dict(c, route="chgstream" if r.startswith("chg") else "stream")
+            for k in ("take", "first", "gain"):
+                d.pop(k, None)
+            if r != "gain":
+                yield d
+        if c.get("ptype", "int") != "int":
+            yield dict(c, ptype="int")
+    elif e == "trace":
+        if c.get("route", "func") != "func":
+            yield dict(c, route="func")
+        if c.get("exc", "DeviceError") != "DeviceError":
+            yield dict(c, exc="DeviceError")
+    elif e == "mut":
+        eds = c["edits"]
+        if eds:
+            yield dict(c, edits=eds[:-1])
+        for i, ops in enumerate(eds):
+            for j in range(len(ops)):
+                yield dict(c, edits=eds[:i] + [ops[:j] + ops[j + 1:]] + eds[i + 1:])
+            for j, op in enumerate(ops):
+                if op[0] == "set" and op[2] != "X":
+                    yield dict(c, edits=eds[:i] + [ops[:j] + [["set", op[1], "X"]] + ops[j + 1:]] + eds[i + 1:])
+        if c.get("route", "func") != "func":
+            yield dict(c, route="func")
+    elif e == "live":
+        if len(c["vals"]) > 1:
+            yield dict(c, vals=c["vals"][:-1])
+        plain = ["v%d" % i for i in range(len(c["vals"]))]
+        if c["vals"] != plain:
+            yield dict(c, vals=plain)
+        if c.get("kind") == "cellstream":
+            yield dict(c, kind="cell")
 
 
 def shrink(c):
-    if c["entry"] != "blocks":
+    if c["entry"] == "conc":
+        subs = c["subs"]
+        if len(subs) == 1:
+            # a single generator: the plain case has the smaller description
+            yield {k: v for k, v in subs[0].items() if k != "share"}
+        for i in range(len(subs)):
+            if len(subs) > 1:
+                yield dict(c, subs=subs[:i] + subs[i + 1:])
+            for s in _shrink1(subs[i]):
+                if valid(s):
+                    if subs[i].get("share") and "xs" in s and s["xs"] != subs[i]["xs"]:
+                        s = dict(s, share=False)
+                    yield dict(c, subs=subs[:i] + [s] + subs[i + 1:])
+        if c.get("order") != "rr":
+            yield dict(c, order="rr")
         return
-    xs = c["xs"]
-    if xs:
-        yield dict(c, xs=xs[:-1])
-        yield dict(c, xs=list(range(len(xs))))
-    if c["size"] > 1:
-        yield dict(c, size=c["size"] - 1)
-    if c["hop"] > 1:
-        yield dict(c, hop=c["hop"] - 1)
-    if c.get("route") != "func":
-        yield dict(c, route="func")
+    for d in _shrink1(c):
+        if valid(d):
+            yield d
 
 
 def neighbours(c):
-    if c["entry"] != "blocks":
+    if c["entry"] not in ("blocks", "trace", "mut", "live"):
         return
     for ds in (-1, 0, 1):
         for dh in (-1, 0, 1):
             for dn in (-1, 0, 1, 2):
-                s, h, n = c["size"] + ds, c["hop"] + dh, len(c["xs"]) + dn
+                s, h, n = c["size"] + ds, c["hop"] + dh, case_len(c) + dn
                 if s >= 1 and h >= 1 and n >= 0:
-                    yield dict(c, size=s, hop=h, xs=list(range(n)))
+                    d = dict(c, size=s, hop=h)
+                    if "xs" in c and c.get("route") != "gain":
+                        d["xs"] = list(range(n))
+                    elif "n" in c:
+                        d["n"] = n
+                    if c["entry"] == "mut":
+                        d["edits"] = [[op for op in ops if op[0] != "set" or op[1] < s] for ops in c["edits"]]
+                    if valid(d):
+                        yield d
 
 
 def classify(c, io, drv):
+    e = c["entry"]
+    if e == "blocks":
+        r = c.get("route", "func")
+        pt = c.get("ptype", "int")
+        fam = r if r in ("gain", "chg_limit", "chg_append", "thub", "thub1", "chgstream", "substream") else "plain"
+        base = "blocks[%s%s]:" % (fam, "" if pt == "int" else "," + pt)
+        if "err" in io:
+            return base + io["err"]
+        if io.get("arg_ok") is False and io.get("blocks") == drv.get("closed"):
+            return base + "argument-changed"
+        return base + "content"
+    if e == "trace":
+        if "err" in io:
+            return "trace:" + io["err"]
+        if io["raised"] != drv["spec_raised"]:
+            return "trace:%s:%s" % (c["ending"], "exception-swallowed" if drv["spec_raised"] else "unexpected-exception")
+        if [b for _n, b in io["events"]] == [b for _n, b in drv["spec"]]:
+            if io["events"] != drv["spec"]:
+                return "trace:%s:read-count" % c["ending"]
+            return "trace:%s:exception-object" % c["ending"]
+        return "trace:%s:blocks" % c["ending"]
+    if e in ("mut", "live"):
+        if "err" in io:
+            return e + ":" + io["err"]
+        if e == "mut" and io["blocks"] == drv.get("plain"):
+            return "mut:edits-not-visible"
+        return e + ":content"
+    if e == "conc":
+        if "err" in io:
+            return "conc:" + io["err"]
+        return "conc:content"
     if "err" in io:
-        return "blocks:" + io["err"]
-    return "blocks-content"
+        return "zero_pad:" + io["err"]
+    if c.get("observe"):
+        return "zero_pad:trace:" + c.get("ending", "stop")
+    return "zero_pad:content"
